@@ -4,5 +4,5 @@ Spec == Init /\ [][Next]_vars
 CONSTANTS MaxF, MaxNow, MaxStack, Depth
 Bound == nf <= MaxF /\ now <= MaxNow /\ Len(stack) <= MaxStack /\ Len(trg.su.during) <= 3 /\ TLCGet("level") <= Depth
 View == <<started, stopped, justStopped, startedBefore, running, trg, dls, fired, pend, newc, now, stack, mode, nf,
-          fnk, ran, sdlog, sdMark, crashAfterSd, suCrash>>
+          fnk, ran, sdlog, sdMark, userCrash, suCrash>>
 =============================================================================
